@@ -24,6 +24,9 @@ pub struct Pin {
 pub struct DTest {
     pub label: Option<String>,
     pub source: String,
+    /// the virtual signals this source declares — listed only when the generator wrote a source that parses (a
+    /// source that does not parse declares nothing)
+    pub declared: Vec<String>,
 }
 
 #[derive(Clone, Debug)]
@@ -209,7 +212,9 @@ pub fn expected(c: &Circuit) -> Result<(Vec<ESig>, Vec<(String, String)>), &'sta
     }
     // header names
     let mut bidir: Vec<String> = vec![];
-    for (_, src) in &tests {
+    for (ti, (_, src)) in tests.iter().enumerate() {
+        // a test may have a column for a virtual signal it declares itself (F22)
+        let declared: &[String] = &c.tests[ti].declared;
         // the header: first non-empty line, which must be followed by a line break
         let mut names: Option<Vec<String>> = None;
         let mut rest = src.as_str();
@@ -238,7 +243,7 @@ pub fn expected(c: &Circuit) -> Result<(Vec<ESig>, Vec<(String, String)>), &'sta
                 if !bidir.contains(&b) {
                     bidir.push(b);
                 }
-            } else if !is_pin {
+            } else if !is_pin && !declared.contains(&n) {
                 return Err("missing");
             }
         }
@@ -423,7 +428,49 @@ pub fn gen_circuit(r: &mut Prng) -> Circuit {
                 uniq.push(h);
             }
         }
-        let hdr = uniq;
+        let mut hdr = uniq;
+        // a column for a virtual signal (F22): 1 = declared by this test, in a source that parses: the column is fine;
+        // 2 = not declared: the name matches no pin; 3 = declared, but the source does not parse: it declares nothing
+        let virt_mode = if !hdr.is_empty() && r.chance(1, 5) { 1 + r.below(3) } else { 0 };
+        let virt_name = format!("VIRT{k}");
+        let mut declared = vec![];
+        if virt_mode > 0 && !ins.contains(&virt_name) && !outs.contains(&virt_name) {
+            let at = r.below(hdr.len() + 1);
+            hdr.insert(at, virt_name.clone());
+            let mut src = String::new();
+            for _ in 0..r.below(3) {
+                src.push('\n');
+            }
+            src.push_str(&hdr.join(" "));
+            src.push('\n');
+            let decl = format!("declare {virt_name} = {};\n", *r.pick(&["0", "1 + 1", "!0", "(2 * 3)"]));
+            if virt_mode != 2 && r.chance(1, 2) {
+                src.push_str(&decl);
+            }
+            for _ in 0..r.below(3) {
+                let row: Vec<&str> = hdr.iter().map(|_| *r.pick(&["0", "1", "X", "Z", "(1+1)"])).collect();
+                src.push_str(&row.join(" "));
+                src.push('\n');
+            }
+            if virt_mode != 2 && !src.contains("declare ") {
+                src.push_str(&decl);
+            }
+            if virt_mode == 1 {
+                declared.push(virt_name.clone());
+            }
+            if virt_mode == 3 {
+                src.push_str(*r.pick(&["let a = ;\n", "loop(i,2)\n", "end loop\n", "1 2 3 4 5 6 7 8 9 10 11 12 13 14 15 16 17 18 19 20 21 22 23 24 25 26 27 28 29 30 31 32 33\n(\n"]));
+            }
+            if r.chance(1, 4) {
+                src.push_str(*r.pick(&["\n\n", "  ", " \n", "\t\t\n"]));
+            }
+            if r.chance(1, 8) {
+                src = src.replace('\n', "\r\n");
+            }
+            let label = if r.chance(1, 6) { None } else { Some(format!("virtual {k}")) };
+            tests.push(DTest { label, source: src, declared });
+            continue;
+        }
         let mut src = String::new();
         for _ in 0..r.below(3) {
             src.push('\n');
@@ -462,7 +509,7 @@ pub fn gen_circuit(r: &mut Prng) -> Circuit {
             3 => Some((*r.pick(&["a<b&c", "Testdata", "Label", "dataString"])).to_string()),
             _ => Some(format!("test {k}")),
         };
-        tests.push(DTest { label, source: src });
+        tests.push(DTest { label, source: src, declared: vec![] });
     }
     Circuit { pins, tests }
 }
